@@ -35,12 +35,12 @@ func ruleC09_3(c *Ctx) {
 		}
 		c.examined(len(fn.Blocks))
 		n := 0
-		for _, call := range p.callsIn(fn, bw) {
+		p.virtualCalls(fn, []*ssa.Function{bw}, func(call ssa.CallInstruction) {
 			gs := guardsOf(call)
 			// only the spills made after the buffer was found empty need arming
 			wasEmpty := guardHas(gs, func(g Guard) bool { _, is := p.isCallTo(g.Cond, isEmpty); return is && g.Truth })
 			if !wasEmpty {
-				continue
+				return
 			}
 			n++
 			// every path from the spill to a return passes ModReadWrite
@@ -58,7 +58,7 @@ func ruleC09_3(c *Ctx) {
 			}
 			c.check(armed, fmt.Sprintf("(*conn).%s: spill #%d arms writability", spec.m, n), c.at(call), "followed on every path by poller.ModReadWrite",
 				"bytes are left in the outbound buffer after a direct write hit EAGAIN / was partial, but EPOLLOUT is not armed on every path: every later write only appends to the non-empty buffer, so the backlog (and everything behind it) is withheld until the connection closes")
-		}
+		})
 		if n < 2 {
 			c.undecided(fmt.Sprintf("(*conn).%s: spills after a direct write", spec.m), p.pos(fn.Pos()), fmt.Sprintf("found %d (EAGAIN and partial-write spills expected)", n))
 		}
